@@ -32,7 +32,7 @@ RULE = ('histories of 2-6 tasks from {create(persist), launch(persist, nowait), 
         '>=1 task was honoured and the model predicted a reply')
 RULE += ('; also: task types resembling launcher attributes, processes failing after recording a result, unpicklable processes, a second launcher on the same persister, tags never saved, a launcher built outside the serving loop')
 ASSUMPTIONS = ['the RabbitMQ transport is replaced by the in-process communicator of pv/comm.py', 'errors may arrive wrapped in RemoteException']
-REQUIRED = ['paused_at_start_played', 'unknown_pid_kinds/str', 'unknown_pid_kinds/int', 'unknown_pid_kinds/UUID', 'unsaveable_persist_tasks', 'second_launcher_continues', 'late_failures', 'tasks/create', 'tasks/launch', 'tasks/continue', 'tasks/bogus', 'rejected', 'persisted_checks', 'nowait_replies', 'wait_replies', 'error_replies',
+REQUIRED = ['launcher_loader_of_its_own_class', 'paused_at_start_played', 'unknown_pid_kinds/str', 'unknown_pid_kinds/int', 'unknown_pid_kinds/UUID', 'unsaveable_persist_tasks', 'second_launcher_continues', 'late_failures', 'tasks/create', 'tasks/launch', 'tasks/continue', 'tasks/bogus', 'rejected', 'persisted_checks', 'nowait_replies', 'wait_replies', 'error_replies',
             'route/direct', 'route/thread', 'route/async', 'persister/none', 'persister/mem', 'persister/pickle', 'persister/failing', 'loader/custom',
             'loader/custom_ctx', 'continued_from_tag', 'traces_checked', 'killed_replies', 'launcher_built_elsewhere', 'absent_tag_with_untagged_checkpoint', 'counted_persister']
 BOUNDS = {'quick': '400 histories', 'thorough': '6000 histories'}
@@ -80,6 +80,16 @@ generated.register(LateFail, 'LateFail')
 generated.register(Unpicklable, 'Unpicklable')
 
 
+class LauncherSideCounts:
+    """Mixed into the loader class the *launcher* is configured with where the persister has a loader of another (its base) class: the
+    launcher's own loader is the one its tasks are loaded through, whatever class the checkpoint records."""
+    consulted = 0
+
+    def load_object(self, identifier):
+        LauncherSideCounts.consulted += 1
+        return super().load_object(identifier)
+
+
 class CountedPersister(plumpy.InMemoryPersister):
     """A persister that can say how many checkpoints it holds (so an empty one is falsy, like any empty container)."""
 
@@ -97,7 +107,7 @@ def gen_cases(tier, seed):
     n = 400 if tier == 'quick' else 6000
     for i in range(n):
         persister = ['none', 'mem', 'pickle', 'failing', 'mem', 'pickle'][i % 6]
-        loader = ['default', 'custom', 'custom_ctx'][(i // 6) % 3]
+        loader = ['default', 'custom', 'custom_ctx', 'custom_split'][(i // 6) % 4]
         route = ['direct', 'thread', 'async'][(i // 18) % 3]
         hist = []
         created = 0
@@ -184,6 +194,10 @@ def run_case(case):
             persister = {'none': lambda: None, 'mem': lambda: (CountedPersister if case.get('counted') else plumpy.InMemoryPersister)(loader), 'pickle': lambda: plumpy.PicklePersister(workdir),
                          'failing': lambda: FailingPersister(loader)}[case['persister']]()
             kwargs = {'loop': loop, 'persister': persister, 'loader': loader}
+            if case['loader'] == 'custom_split':
+                # the launcher is configured with a loader of its own class (derived from the persister's)
+                kwargs['loader'] = type('LauncherLoader', (LauncherSideCounts, type(loader)), {})()
+                LauncherSideCounts.consulted = 0
             if case['loader'] == 'custom_ctx':
                 kwargs['load_context'] = plumpy.LoadSaveContext()
             if case.get('built') == 'elsewhere':
@@ -390,6 +404,7 @@ def run_case(case):
                         before = set(id(p) for p in programs.INSTANCES)
                     task = pc.create_continue_body(pid, tag=tag, nowait=nowait)
                     loads_before = c19.CountingLoader.loads
+                    launcher_loads_before = LauncherSideCounts.consulted
                     rep = send(task, not nowait)
                     new = [p for p in programs.INSTANCES if id(p) not in before]
                     if case['persister'] == 'none':
@@ -426,7 +441,12 @@ def run_case(case):
                                       '%s: the continued process does not extend the stored snapshot (snapshot trace %s, process trace %s)' % (
                                           ctx, snap_trace[:4], proc.trace[:4])))
                     _check_completed(proc, target['prog'], rep if not nowait else None, ctx, viol, obs, V, full=False)
-                    if loader is not None and c19.CountingLoader.loads == loads_before:
+                    if case['loader'] == 'custom_split':
+                        obs['launcher_loader_of_its_own_class'] = 1
+                        if LauncherSideCounts.consulted == launcher_loads_before:
+                            viol.append(V('loader-unused', 'loader-unused:launcher-side', '%s: the loader the launcher is configured with was never consulted for the continue task '
+                                          '(the checkpoint records the class of the persister\'s loader)' % ctx))
+                    elif loader is not None and c19.CountingLoader.loads == loads_before:
                         viol.append(V('loader-unused', 'loader-unused', '%s: the configured custom loader was never consulted' % ctx))
                 if viol:
                     break
